@@ -793,9 +793,21 @@ impl BuiltInFunction {
                 })?;
 
                 let result: Primitive = match this {
-                    Primitive::Int(i32) => Primitive::BigInt(i32.pow(power_non_fp) as i128),
-                    Primitive::BigInt(i128) => Primitive::BigInt(i128.pow(power_non_fp)),
-                    Primitive::Byte(u8) => Primitive::BigInt(u8.pow(power_non_fp) as i128),
+                    // the result is a bigint: widen first, and report an overflow of the bigint itself.
+                    Primitive::Int(i32) => Primitive::BigInt(
+                        (*i32 as i128)
+                            .checked_pow(power_non_fp)
+                            .context("operation overflow/underflow")?,
+                    ),
+                    Primitive::BigInt(i128) => Primitive::BigInt(
+                        i128.checked_pow(power_non_fp)
+                            .context("operation overflow/underflow")?,
+                    ),
+                    Primitive::Byte(u8) => Primitive::BigInt(
+                        (*u8 as i128)
+                            .checked_pow(power_non_fp)
+                            .context("operation overflow/underflow")?,
+                    ),
                     bad => unreachable!("{bad}"),
                 };
 
